@@ -189,9 +189,134 @@ def shift_right(x, k):
     raise Unsupported('>> of {}'.format(type(x).__name__))
 
 
+def bounds_in_region(lin, region):
+    """(lo, hi) of a linear form when SH is negative / zero / positive (None = unbounded)."""
+    lo = hi = lin.const
+    for a, c in lin.coefs.items():
+        if a == SH:
+            continue
+        if c > 0:
+            hi += c
+        else:
+            lo += c
+    cs = lin.coefs.get(SH, 0)
+    if cs == 0 or region == 'zero':
+        return lo, hi
+    if region == 'neg':          # SH <= -1
+        return (None, hi - cs) if cs > 0 else (lo - cs, None)
+    if region == 'pos':          # SH >= 1
+        return (lo + cs, None) if cs > 0 else (None, hi + cs)
+    return None, None
+
+
 class Interp:
     def __init__(self, facts):
         self.facts = facts
+
+    def call_regions(self, fname, args):
+        """Like call(), but an `if <linear form> <op> <constant>` at the top level of the function splits the input space into
+        regions (sign of the unbounded part, then the high bits); returns [(region description, value)]."""
+        f = self.facts.funcs.get(fname)
+        if f is None:
+            raise AnalysisError('anchor vanished: function {}'.format(fname))
+        params = [a.arg for a in f.args.args]
+        env = dict(zip(params, args))
+        return self.block_regions(list(f.body), env, fname, [], {}, None)
+
+    def block_regions(self, body, env, fname, region, subst, sh_state):
+        for i, st in enumerate(body):
+            if isinstance(st, ast.If) and isinstance(st.test, ast.BoolOp) and len(st.test.values) >= 2:
+                # A and B  ->  if A: (if B: body else: orelse) else: orelse     /     A or B  ->  if A: body else: (if B: ...)
+                first = st.test.values[0]
+                rest_t = st.test.values[1] if len(st.test.values) == 2 else ast.BoolOp(op=st.test.op, values=st.test.values[1:])
+                if isinstance(st.test.op, ast.And):
+                    inner = ast.If(test=rest_t, body=st.body, orelse=st.orelse)
+                    new = ast.If(test=first, body=[inner], orelse=st.orelse)
+                else:
+                    inner = ast.If(test=rest_t, body=st.body, orelse=st.orelse)
+                    new = ast.If(test=first, body=st.body, orelse=[inner])
+                return self.block_regions([new] + list(body[i + 1:]), env, fname, region, subst, sh_state)
+            if isinstance(st, ast.If) and isinstance(st.test, ast.Compare) and len(st.test.ops) == 1 \
+                    and isinstance(st.test.ops[0], (ast.Lt, ast.LtE, ast.Gt, ast.GtE)):
+                left = self.ev(st.test.left, env, fname, 0)
+                right = self.ev(st.test.comparators[0], env, fname, 0)
+                if isinstance(left, int) and isinstance(right, Lin):
+                    left, right = right, left
+                    op = {ast.Lt: ast.Gt, ast.LtE: ast.GtE, ast.Gt: ast.Lt, ast.GtE: ast.LtE}[type(st.test.ops[0])]
+                else:
+                    op = type(st.test.ops[0])
+                if isinstance(left, Lin) and isinstance(right, int) and not left.is_const():
+                    rest = body[i + 1:]
+                    out = []
+                    for reg, sub in self.split_compare(left, op, right, fname, sh_state):
+                        e2 = {}
+                        for k, v in env.items():
+                            if isinstance(v, Lin):
+                                for atom, val in sub['subst'].items():
+                                    v = v.subst(atom, val)
+                            e2[k] = v
+                        branch = st.body if sub['truth'] else st.orelse
+                        s2 = dict(subst)
+                        s2.update(sub['subst'])
+                        out.extend(self.block_regions(list(branch) + list(rest), e2, fname, region + ([reg] if reg else []), s2,
+                                                      sub.get('sh', sh_state)))
+                    return out
+            if isinstance(st, ast.Return):
+                return [(' and '.join(region) or 'all v', dict(subst), self.ev(st.value, env, fname, 0))]
+            # every other statement: single-valued semantics of block() for one statement
+            if isinstance(st, ast.If):
+                # delegate the remainder (bit tests re-join linearly)
+                return [(' and '.join(region) or 'all v', dict(subst), self.block(body[i:], env, fname, 0))]
+            self.block_noreturn_stmt(st, env, fname)
+        raise Unsupported('{}: falls off the end'.format(fname))
+
+    def block_noreturn_stmt(self, st, env, fname):
+        sentinel = ast.Return(value=ast.Constant(value=0))
+        self.block([st, sentinel], env, fname, 0)
+
+    def split_compare(self, lin, op, c, fname, sh_state=None):
+        """[(region text, {'truth': bool, 'subst': {atom: value}})] covering all integers v."""
+        def decide(lo, hi):
+            if op is ast.Lt:
+                return True if (hi is not None and hi < c) else (False if (lo is not None and lo >= c) else None)
+            if op is ast.LtE:
+                return True if (hi is not None and hi <= c) else (False if (lo is not None and lo > c) else None)
+            if op is ast.Gt:
+                return True if (lo is not None and lo > c) else (False if (hi is not None and hi <= c) else None)
+            return True if (lo is not None and lo >= c) else (False if (hi is not None and hi < c) else None)
+        out = []
+        if SH in lin.coefs and sh_state in ('neg', 'pos'):
+            d = decide(*bounds_in_region(lin, sh_state))
+            if d is None:
+                raise Unsupported('{}: comparison with {} undecided in region {}'.format(fname, c, sh_state))
+            return [(None, {'truth': d, 'subst': {}, 'sh': sh_state})]
+        if SH in lin.coefs:
+            for reg, text in (('neg', 'v < 0 (negative spellings)'), ('pos', 'v >= 2^{}'.format(K))):
+                d = decide(*bounds_in_region(lin, reg))
+                if d is None:
+                    raise Unsupported('{}: comparison with {} undecided for {}'.format(fname, c, text))
+                out.append((text, {'truth': d, 'subst': {}, 'sh': reg}))
+            lin0 = lin.subst(SH, 0)
+            sub0 = {SH: 0}
+        else:
+            lin0, sub0 = lin, {}
+        lo, hi = lin0.range()
+        d = decide(lo, hi)
+        if d is not None:
+            out.append(('0 <= v < 2^{}'.format(K), {'truth': d, 'subst': dict(sub0)}))
+            return out
+        # bit-disjoint non-negative form against a power of two: v < 2^k  <=>  all bits >= k are zero
+        strict = c if op in (ast.Lt, ast.GtE) else c + 1        # compare as  form < strict  /  form >= strict
+        if strict <= 0 or strict & (strict - 1) or lin0.const != 0 or any(cf <= 0 or cf & (cf - 1) for cf in lin0.coefs.values()) \
+                or len(set(lin0.coefs.values())) != len(lin0.coefs):
+            raise Unsupported('{}: comparison of {} with {} is not a power-of-two threshold on a bit-disjoint form'.format(fname, lin0, c))
+        high = {a: 0 for a, cf in lin0.coefs.items() if cf >= strict}
+        below = op in (ast.Lt, ast.LtE)
+        s1 = dict(sub0)
+        s1.update(high)
+        out.append(('0 <= v < {}'.format(strict), {'truth': below, 'subst': s1}))
+        out.append(('{} <= v < 2^{}'.format(strict, K), {'truth': not below, 'subst': dict(sub0)}))
+        return out
 
     def call(self, fname, args, depth=0):
         f = self.facts.funcs.get(fname)
